@@ -408,8 +408,11 @@ def nonmutator_calls(seed, n):
                 lines.insert(r.randrange(len(lines) + 1), r.choice([
                     'sorted(rows, v => v[0], True)', 'sorted(rows, v => v[0])', 'sorted(rows, v => 0, True)', 'rows | sorted(v => len(v[1]), True)',
                     'sorted(rd, (k, v) => v, True)', 'sorted(rd, (k, v) => 0, True) | keys', 'sorted([1.0, 1, 2, 2.0], None, True)', 'sorted(["b", "a", "B"], v => lower(v), True)']))
-            x = r.choice(['dd', 'od', 'reg', 'ho', 'st', 'dq', 'ik', 'd'])
+            x = r.choice(['dd', 'od', 'reg', 'ho', 'st', 'dq', 'ik', 'ik', 'd', 'm'])
             k = r.choice(['"missing"', '"x"', '"a"', '0', '7', 'None', '"b"'])
+            if isinstance(names.get(x), dict) and names[x] and r.random() < 0.6:
+                kk = r.choice(list(names[x]))           # a key the object really has (text or int)
+                k = '"%s"' % kk if isinstance(kk, str) else str(kk)
             lines.insert(r.randrange(len(lines) + 1), r.choice(['get(%s, %s)' % (x, k), '(%s | get(%s, 0))' % (x, k), 'get(%s, %s, [])' % (x, k),
                                                                  'len(%s)' % x, 'str(%s)' % x, 'keys(%s)' % x, 'index_of(%s, %s)' % (x, k),
                                                                  'max(%s)' % x, 'sum(%s)' % x, 'join(%s, ",")' % x, 'values(%s)' % x]))
